@@ -11,6 +11,7 @@ from conda_content_trust import authentication as A, common as C, metadata_const
 from vlib import gen_json as G, gen_metadata as GM, gen_mutate as MU, gen_pyvalues as GP, keys, ref_grammar as g, \
     ref_schema, ref_verify as RV
 from vlib.ref_canon import canon, jeq
+from vlib import cfgunit as _cfgunit
 from vlib.runner import Unit, Violation
 
 PROPERTY = "C16"
@@ -80,7 +81,7 @@ def _check_result(fname, r, given, is_root):
             raise Violation("%s: default expiration - timestamp = %s s, expected 365 days (+-5 s) and > 0" % (fname, delta),
                             bucket="default expiry distance")
     if given["timestamp"] is OMIT:
-        now = datetime.datetime.utcnow()
+        now = datetime.datetime.now(datetime.timezone.utc).replace(tzinfo=None)
         if abs((_parse(r["timestamp"]) - now).total_seconds()) > 5:
             raise Violation("%s: default timestamp %s is not the current UTC time" % (fname, r["timestamp"]), bucket="default timestamp")
     if is_root:
@@ -289,4 +290,6 @@ UNITS = [
          doc="each argument corrupted: argument error, or output that is still well-formed and verbatim"),
     Unit("chain", check_chain, strategy=_chains, quick=300, thorough=10000,
          essential=["rotated"], doc="builder -> signer -> verifier: three-link root chains and key_mgr delegation"),
+    _cfgunit.unit_under_config(PROPERTY, 'valid', exclude=('PYTHONWARNINGS', 'TZ')),
+    _cfgunit.unit_under_config(PROPERTY, 'corrupt', exclude=('PYTHONWARNINGS',)),
 ]
